@@ -796,13 +796,18 @@ def cmdWholeWrite (d : Device) (o : Object) (c : Cmd) (v : WVal) : Object × Exc
   | (o1, .error r) => (o1, .error r)
   | (o1, .ok ()) => cmdSettle d o1 c
 
+/-- `if priority is None: priority = 16` -/
+def effPrio : Option Int → Int
+  | some p => p
+  | none => 16
+
 /-- `Commandable(...).WriteProperty`: presentValue (with a priority, default 16)
     is translated into a priority-array element write (the request's array
     index is overwritten by the priority); priorityArray is handled here;
     everything else goes to the base class -/
 def objWriteCmd (d : Device) (o : Object) (c : Cmd) (pid : Nat) (v : WVal) (idx : Option Nat)
     (prio : Option Int) : Object × Except Refusal Unit :=
-  if pid = c.pv then cmdSlotWrite d o c v (match prio with | some p => p | none => 16)
+  if pid = c.pv then cmdSlotWrite d o c v (effPrio prio)
   else if pid = c.pa then
     match idx with
     | none => cmdWholeWrite d o c v
